@@ -83,8 +83,9 @@ static int rt_ok(const unsigned char* src, size_t n, const unsigned char* c, siz
     return !ZSTD_isError(r) && r == n && !memcmp(BACK, src, n); }
 
 /* ---- scenario state ---- */
-typedef struct { ZSTD_CCtx* c; ZSTD_DCtx* d; ZSTD_CDict* cd; ZSTD_DDict* dd; ZSTD_DDict* dds[40]; int ndds; unsigned char* frame; size_t fsz; size_t fsz2; unsigned char* frame2; size_t n2; } S;
+typedef struct { ZSTD_CCtx* c; ZSTD_DCtx* d; ZSTD_CDict* cd; ZSTD_DDict* dd; ZSTD_DDict* dds[40]; int ndds; unsigned char* frame; size_t fsz; size_t fsz2; unsigned char* frame2; size_t n2; int plain; } S;
 typedef struct { const char* name; void (*setup)(S*); size_t (*op)(S*, char* why); void (*reset)(S*); } scen_t;
+static size_t alt_small(S* s, char* why);   /* after the failed call + reset: a smaller job that fits what the context already held */
 #define NULLRES ((size_t)-1000)     /* constructor returned NULL */
 
 static size_t set(ZSTD_CCtx* c, ZSTD_cParameter p, int v) { return ZSTD_CCtx_setParameter(c, p, v); }
@@ -135,7 +136,7 @@ static void su_mt_warm(S* s) { char why[64]; s->c = ZSTD_createCCtx_advanced(CM)
 static size_t op_mt_grow(S* s, char* why) { return op_mt(s, why, 2, 1, 1048576, 2500000, 0); }       /* job size grows: pooled buffers too small */
 static size_t op_mt_more_workers(S* s, char* why) { return op_mt(s, why, 4, 0, 524288, 2500000, 1); }  /* worker count changes: pools resized */
 /* -- decompression -- */
-static void su_frames(S* s) { ZSTD_CCtx* c = ZSTD_createCCtx(); size_t r; ZSTD_CCtx_setParameter(c, ZSTD_c_windowLog, 17); ZSTD_CCtx_setParameter(c, ZSTD_c_checksumFlag, 1); ZSTD_CCtx_setParameter(c, ZSTD_c_contentSizeFlag, 0);
+static void su_frames(S* s) { ZSTD_CCtx* c = ZSTD_createCCtx(); size_t r; s->plain = 1; ZSTD_CCtx_setParameter(c, ZSTD_c_windowLog, 17); ZSTD_CCtx_setParameter(c, ZSTD_c_checksumFlag, 1); ZSTD_CCtx_setParameter(c, ZSTD_c_contentSizeFlag, 0);
     r = ZSTD_compress2(c, DST, DSTCAP, SRC, 300000); s->frame = (unsigned char*)malloc(r); memcpy(s->frame, DST, r); s->fsz = r;
     ZSTD_CCtx_setParameter(c, ZSTD_c_windowLog, 21); r = ZSTD_compress2(c, DST, DSTCAP, SRC, 2500000); s->frame2 = (unsigned char*)malloc(r); memcpy(s->frame2, DST, r); s->fsz2 = r; s->n2 = 2500000; ZSTD_freeCCtx(c); }
 static void su_dctx(S* s) { su_frames(s); s->d = ZSTD_createDCtx_advanced(CM); }
@@ -176,6 +177,14 @@ static size_t op_train_legacy(S* s, char* why) { (void)s; return train(2, why); 
 static size_t op_opt_fastcover(S* s, char* why) { (void)s; return train(3, why); }
 static size_t op_opt_cover(S* s, char* why) { (void)s; return train(4, why); }
 
+static size_t alt_small(S* s, char* why) {
+    if (s->c) { size_t r; ZSTD_CCtx_reset(s->c, ZSTD_reset_session_and_parameters); r = set(s->c, ZSTD_c_compressionLevel, 1); if (ZSTD_isError(r)) return r; r = ZSTD_compress2(s->c, DST, DSTCAP, SRC, 3000);
+        if (ZSTD_isError(r)) return r; if (!rt_ok(SRC, 3000, DST, r, NULL, 0)) { strcpy(why, "small job after failure: round trip"); return (size_t)-ZSTD_error_GENERIC; } }
+    if (s->d && s->frame && s->fsz && s->plain) { size_t out = 0; size_t r; unsigned char head[4]; memcpy(head, s->frame, 4);
+        /* only plain frames (no dictionary): the first warm-up frame of the decoding scenarios */
+        if (ZSTD_getDictID_fromFrame(s->frame, s->fsz) == 0) { ZSTD_DCtx_reset(s->d, ZSTD_reset_session_only); r = dec_stream(s->d, s->frame, s->fsz, 10000, &out); if (ZSTD_isError(r)) return r;
+            if (r != 0 || memcmp(BACK, SRC, out < 1000 ? out : 1000)) { strcpy(why, "small frame after failure: decoded bytes"); return (size_t)-ZSTD_error_GENERIC; } } }
+    return 0; }
 static scen_t const SCEN[] = {
     { "create_cctx", su_none, op_create_cctx, rs_cctx }, { "oneshot3", su_cctx, op_oneshot3, rs_cctx }, { "oneshot_grow", su_cctx_warm, op_oneshot_grow, rs_cctx },
     { "oneshot19", su_cctx, op_oneshot19, rs_cctx }, { "oneshot_ldm", su_cctx_warm, op_oneshot_ldm, rs_cctx }, { "stream", su_cctx, op_stream, rs_cctx }, { "stream_grow", su_cctx_warm, op_stream, rs_cctx },
@@ -209,8 +218,9 @@ int main(void) {
             /* a context that has just failed must still answer its size query */
             if (s.c) (void)ZSTD_sizeof_CCtx(s.c); if (s.d) (void)ZSTD_sizeof_DCtx(s.d);
             sc->reset(&s);
+            {   size_t const ra = alt_small(&s, why); if (ZSTD_isError(ra)) { printf("retry=FAIL:alt:%s%s ", zv_errclass(ra), why); why[0] = 0; } sc->reset(&s); }
             r2 = sc->op(&s, why);
-            printf("retry=%s%s%s ", r2 == NULLRES ? "FAIL:null" : (ZSTD_isError(r2) ? "FAIL:" : "ok"), (r2 != NULLRES && ZSTD_isError(r2)) ? zv_errclass(r2) : "", why[0] ? why : "");
+            printf("retry2=%s%s%s ", r2 == NULLRES ? "FAIL:null" : (ZSTD_isError(r2) ? "FAIL:" : "ok"), (r2 != NULLRES && ZSTD_isError(r2)) ? zv_errclass(r2) : "", why[0] ? why : "");
             ZSTD_freeCCtx(s.c); ZSTD_freeDCtx(s.d); ZSTD_freeCDict(s.cd); ZSTD_freeDDict(s.dd); for (j = 0; j < s.ndds; j++) ZSTD_freeDDict(s.dds[j]); free(s.frame); free(s.frame2);
             printf("log=%s\n", g_loglen ? g_log : "-");
             ledger_reset(); alarm(0);
